@@ -20,8 +20,12 @@ TWO_PI = tc.TWO_PI
 
 
 # ------------------------------------------------------------------ oracle (independent of the model)
-def _arc_radius_centre(case, V):
-    """the two centres at distance |r| from start and target; keep the one the emitted vertices fit best"""
+def _arc_radius_centre(case, V, tie=None):
+    """the two centres at distance |r| from start and target; keep the one the emitted vertices fit best.
+
+    `tie`: when the vertices fit both centres to within this distance (one or two moves, or an arc so flat that its
+    sagitta is below the output rounding) they do not tell the two arcs apart; the centre the request describes is then
+    taken (minor arc: to the left of the chord when going counter-clockwise, to the right when going clockwise)."""
     s, t, r = case["start"], tc.spec_target(case), abs(case["radius"])
     dx, dy = t[0] - s[0], t[1] - s[1]
     d = math.hypot(dx, dy)
@@ -32,6 +36,9 @@ def _arc_radius_centre(case, V):
     cands = [(mx + h * dy / d, my - h * dx / d), (mx - h * dy / d, my + h * dx / d)]
     spread = [float(np.abs(np.hypot(V[:, 0] - c[0], V[:, 1] - c[1]) - r).max()) for c in cands]
     k = 0 if spread[0] <= spread[1] else 1
+    if tie is not None and max(spread) <= tie:
+        left = (not case["cw"]) == (case["radius"] > 0)
+        k = 1 if left else 0
     return cands[k], r
 
 
@@ -89,6 +96,14 @@ def oracle(case: dict, impl: dict) -> list[tuple[str, str]]:
             if list(p) != ctrl[-1]:
                 ctrl.append(list(p))
         end_check(ctrl[-1])
+        seg = tc.seg_lengths(V)
+        if n >= 4:
+            nxt = float(seg[1:4].max())
+            if nxt <= 2 * res + 2 * tp and seg[0] > 1.06 * res + 2 * tp and seg[0] > 1.5 * nxt + 2 * tp:
+                # the moves that follow are at the scale of the resolution, so the curve is sampled that finely there, and it
+                # is smooth: a first move that is longer than one resolution and out of scale with them is a jump from the
+                # current position to a curve that begins somewhere else
+                out.append(("start", f"first move is {seg[0]:.4g} long (resolution {res:.4g}, next moves {[round(float(x), 6) for x in seg[1:4]]}): the curve does not begin at the current position"))
         a, b = V[:-1], V[1:]
         j0 = 0
         for k, cp in enumerate(ctrl):
@@ -143,10 +158,10 @@ def oracle(case: dict, impl: dict) -> list[tuple[str, str]]:
 
     if shape in ("arc", "circle", "arc_radius"):
         if shape == "arc_radius":
-            c, r = _arc_radius_centre(case, V)
+            c, r = _arc_radius_centre(case, V, tie=2 * tp)
         else:
             c = tc.spec_centre(case)
-            r = math.hypot(*case["center"])
+            r = math.hypot(case["center"][0], case["center"][1])  # the centre is an (x, y) offset; a third component has no meaning on the XY plane
         rad = np.hypot(V[:, 0] - c[0], V[:, 1] - c[1])
         dev = float(np.abs(rad - r).max())
         if dev > 2 * tp:
@@ -300,12 +315,132 @@ CORPUS = [
 ]
 
 
+# hand-written members of the three families below (kept apart from CORPUS, which C12 re-uses)
+CORPUS_FAMILIES = [
+    # a short arc on a large radius (sweeps of 5e-5 and 3e-5 rad), described by its radius and by its centre
+    {"shape": "arc_radius", "cw": False, "rel": False, "start": [12.5, -3.0, 1.0], "res": 20.0, "units": "mm", "dp": 5, "target": [12.625, -3.0, None], "radius": 2500.0},
+    {"shape": "arc", "cw": True, "rel": True, "start": [0.0, 1000.0, 0.25], "res": 4.0, "units": "mm", "dp": 6, "target": [0.03125, 999.9999995117188, 0.25], "center": [0.0, -1000.0]},
+    # whole-number control points written as Python ints, from a start between them
+    {"shape": "spline", "cw": True, "rel": False, "start": [1.5, -2.25, 0.5], "res": 0.1, "units": "mm", "dp": 5, "points": [[4, 3, 1], [9, -2, 0], [12, 1, 2]]},
+    {"shape": "polyline", "cw": False, "rel": False, "start": [-0.75, 0.5, 2.0], "res": 0.1, "units": "mm", "dp": 5, "points": [[4, 3], [9, -2, 1], [4, 3, 1]]},
+    # a centre offset that carries a third component (an absolute 3-D centre minus the current position)
+    {"shape": "arc", "cw": False, "rel": False, "start": [6.0, 8.0, -1.5], "res": 0.25, "units": "mm", "dp": 5, "target": [-8.0, 6.0, None], "center": [-6.0, -8.0, 1.5]},
+    {"shape": "helix", "cw": True, "rel": True, "start": [15.0, -5.0, 4.0], "res": 0.5, "units": "mm", "dp": 6, "target": [10.0, -12.5, -2.0], "center": [-5.0, 0.0, -4.0], "turns": 2},
+]
+
+
+# ------------------------------------------------------------------ further generator families
+def gen_tiny_sweep(rng) -> dict:
+    """Start and target a hair apart on the circle: bearings from the centre differ by 10^U(-6.3,-1.5) rad (a short chord on
+    a large radius, or a tiny chord).  Going the selected way round this is a sweep of that small angle (75 %) or of a
+    whole turn less that angle (25 %).  arc, arc_radius (the sign of the radius says which) and helix (1-2 turns).
+
+    The resolution is never finer than 1/1000 of a whole turn at that radius, so that whatever sweep gets traced the path
+    stays small."""
+    for _ in range(2000):
+        c = tc._common(rng)
+        c["switch"] = False
+        shape = rng.choice(["arc", "arc_radius", "arc", "arc_radius", "helix"])
+        c["shape"] = shape
+        s = c["start"]
+        r = 10 ** rng.uniform(-0.5, 3.7)
+        eps = 10 ** rng.uniform(-6.3, -1.5)
+        long_way = rng.random() < 0.25
+        sweep = TWO_PI - eps if long_way else eps
+        turns = rng.choice([1, 1, 2]) if shape == "helix" else 1
+        ratio_r = rng.choice([1.0, 1.0, 0.8, 1.25]) if shape == "helix" else 1.0
+        alpha = rng.uniform(0, TWO_PI)
+        if rng.random() < 0.15:
+            alpha = rng.choice([0.0, 0.5, 1.0, 1.5]) * math.pi  # axis-aligned
+        cen = (r * math.cos(alpha), r * math.sin(alpha))
+        cx, cy = s[0] + cen[0], s[1] + cen[1]
+        rr = math.hypot(cen[0], cen[1])
+        a0 = math.atan2(s[1] - cy, s[0] - cx)
+        a1 = a0 + (-sweep if c["cw"] else sweep)
+        r1 = rr * ratio_r
+        total = sweep + TWO_PI * (turns - 1)
+        planar = math.hypot(0.5 * (rr + r1) * total, r1 - rr)
+        dz = 0.0 if rng.random() < 0.5 else rng.choice([-1, 1]) * rng.uniform(0.1, 1.5) * planar
+        path = math.hypot(planar, dz)
+        lr = 10 ** (rng.uniform(0.5, 2.3) if (long_way or turns > 1 or ratio_r != 1.0) else rng.uniform(-1.5, 1.3))
+        res = max(path / lr, TWO_PI * max(rr, r1) * turns / 1000)
+        moves = path / res + 2
+        tol = (1 + (moves if c["rel"] else 0)) * 10.0 ** (-c["dp"]) + 1e-9 * (60 + 2 * max(rr, r1))
+        if eps * min(rr, r1) < 100 * tol:
+            continue  # the two points would coincide within the output rounding
+        tgt = [cx + r1 * math.cos(a1), cy + r1 * math.sin(a1), s[2] + dz]
+        c["target"] = tgt if (dz != 0.0 or rng.random() < 0.5) else [tgt[0], tgt[1], None]
+        c["res"] = res
+        c["tiny"] = eps
+        if shape == "arc_radius":
+            c["radius"] = -rr if long_way else rr
+        else:
+            c["center"] = list(cen)
+        if shape == "helix":
+            c["turns"] = turns
+        return c
+    raise core.Infra("gen_tiny_sweep: no case")
+
+
+def gen_int_points(rng) -> dict:
+    """spline / polyline through whole-number points given as Python ints (how they are written by hand), mostly in absolute
+    mode (where they reach the library as they are) and from a start that is not a whole number"""
+    c = tc._common(rng)
+    c["switch"] = False
+    shape = "spline" if rng.random() < 0.7 else "polyline"
+    c["shape"] = shape
+    c["rel"] = rng.random() < 0.15
+    s = [tc._grid(rng, -30, 30) for _ in range(3)]
+    if rng.random() < 0.85 and all(float(v).is_integer() for v in s[:2]):
+        s[rng.randrange(2)] += rng.choice([0.125, 0.25, 0.5, 0.75])
+    c["start"] = s
+    span = rng.choice([1, 2, 3, 5, 8, 13])
+    pts, cur = [], [int(round(v)) for v in s]
+    for _ in range(rng.randint(1, 5)):
+        if pts and rng.random() < 0.1:
+            p = list(cur)  # repeats the previous point
+        else:
+            while True:
+                p = [cur[i] + rng.randint(-span, span) for i in range(3)]
+                if p != cur:
+                    break
+        cur = list(p)
+        if shape == "polyline" and rng.random() < 0.3:
+            p = p[:2] if rng.random() < 0.5 else [p[0], p[1], None]
+        pts.append(p)
+    at, poly = list(s), 0.0
+    for q in pts:
+        nxt = [at[i] if (i >= len(q) or q[i] is None) else q[i] for i in range(3)]
+        poly += math.dist(at, nxt)
+        at = nxt
+    c["points"] = pts
+    c["res"] = max(poly, 1.0) / 10 ** rng.uniform(1.2, 2.6)
+    c["ints"] = True
+    return c
+
+
+def gen_centre_z(rng) -> dict:
+    """arc / circle / helix whose centre offset carries a third, non-zero component (`centre - position` of two 3-D points):
+    the path is traced on the XY plane, the component has no bearing on it"""
+    shape = rng.choice(["arc", "circle", "helix"])
+    c = tc.gen_case(rng, shape, ratio=(0.5, 2.1), max_samples=3000)
+    r = math.hypot(c["center"][0], c["center"][1])
+    cz = rng.choice([-1, 1]) * max(0.25, round(r * rng.uniform(0.05, 2.0) * 8) / 8)
+    if rng.random() < 0.3:
+        cz = -c["start"][2] if c["start"][2] else cz  # centre noted at Z = 0
+    c["center"] = [c["center"][0], c["center"][1], cz]
+    return c
+
+
 def run(R: core.Run):
     R.rule = (
         "tracer requests drawn per shape (arc, arc_radius, circle, helix, thread, spiral, spline, polyline, user parametric) x "
         "{cw, ccw} x {absolute, relative} x starts on a 1/8 grid within +-50 (8% at the origin) x resolution 10^U(-3,1) x "
         "path/resolution 10^U(0,2.5) (6% below 1) x {mm, in} (25% after a unit switch) x decimal places {5,6,9}; ~8% geometrically "
-        "invalid requests; non-trivial = accepted request that emitted >= 3 moves; distinct by hash of the request"
+        "invalid requests; plus three families: bearings of start and target 10^U(-6.3,-1.5) rad apart (arc, arc_radius, helix; "
+        "the short way round and the long way round; radius 10^U(-0.5,3.7)), spline/polyline through whole-number points given "
+        "as Python ints from fractional starts, arc/circle/helix centre offsets with a third non-zero component; "
+        "non-trivial = accepted request that emitted >= 3 moves; distinct by hash of the request"
     )
     R.assumptions = [
         "floating-point rounding inside numpy/libm is sampled, not proved: formula stage agrees within 1e-9*scale at the recorded thetas",
@@ -332,6 +467,14 @@ def run(R: core.Run):
     chunk = 200
     for k in range(0, len(cases), chunk):
         run_batch(R, cases[k : k + chunk], "random")
+    # families the uniform draw above (almost) never produces; the model covers all of them
+    run_batch(R, [dict(c) for c in CORPUS_FAMILIES], "corpus-families")
+    fam = [gen_tiny_sweep(R.rng) for _ in range(R.n(60, 1200))]
+    run_batch(R, fam, "family:tiny-sweep")
+    fam = [gen_int_points(R.rng) for _ in range(R.n(45, 900))]
+    run_batch(R, fam, "family:int-points")
+    fam = [gen_centre_z(R.rng) for _ in range(R.n(36, 700))]
+    run_batch(R, fam, "family:centre-z")
     if R.broken:
         # failing-input search: a fresh batch judged by the oracle only, biased to the shapes that disagreed
         R.search_batches += 1
